@@ -11,6 +11,10 @@ PROPS = {
     'fx': ('flex', True), 'fxg': ('flex-grow', True),
     'c': ('color', False), 'bd': ('border', False), 'bgc': ('background-color', False), 'bdc': ('border-color', False),
 }
+# user-defined property snippets (passed as `snippets` with every call): custom properties, vendor prefixes, double dashes
+USER_SNIPPETS = {'gut': '--gutter', 'wkb': '-webkit-box-flex', 'xab': 'x-a--b', 'cqy': 'container-query', 'mbk': 'margin-block', 'bcr': '--brand-color-x'}
+for _k, _v in USER_SNIPPETS.items():
+    PROPS[_k] = (_v, False)
 DEFAULT_UNITLESS = ['z-index', 'line-height', 'opacity', 'font-weight', 'zoom', 'flex', 'flex-grow', 'flex-shrink']
 DEFAULT_ALIASES = {'e': 'em', 'p': '%', 'x': 'ex', 'r': 'rem'}
 EXPLICIT_UNITS = ['px', 'pt', 'em', 'rem', 'vh', 'vw', '%', 'ms', 's', 'deg', 'fr']
